@@ -435,7 +435,7 @@ func visitInstr(fr *frame, instr ssa.Instruction) continuation {
 				a := uintptr(unsafe.Pointer(m))
 				i.raceAccess(a, true, fr, instr.Pos())
 				if path, ok := i.race.shared[a]; ok {
-					i.markShared(v, nil, path+"[+]", 0)
+					i.publish(v, nil, path+"[+]")
 				}
 			}
 			m.insert(i, key, v)
